@@ -176,8 +176,15 @@ def hess_cases(draw, tier):
         for j in range(k):
             if i > j + 1:
                 H[i, j] = 0.0
-    sub = draw(st.sampled_from(["as_is", "real_positive", "some_zero", "tiny", "all_zero"]))
+    sub = draw(st.sampled_from(["as_is", "real_positive", "some_zero", "tiny", "all_zero", "zero_diagonal"]))
     tags = [sub]
+    if sub == "zero_diagonal":
+        # exactly zero diagonal entries over non-zero sub-diagonal entries (pure row exchanges), also for k = 1
+        for j in range(k):
+            if draw(st.booleans()) or k == 1:
+                H[j, j] = 0.0
+                if not H[j + 1, j].any():
+                    H[j + 1, j] = draw(gen.unit_q(exact=True)) * draw(st.sampled_from([1.0, 2.0, 0.5]))
     for j in range(k):
         if sub == "real_positive":
             H[j + 1, j] = [abs(H[j + 1, j, 0]) + 0.125, 0, 0, 0]
@@ -271,7 +278,7 @@ def check_hess(case):
                 below = max(below, float(ref.modulus(Rq[i, j])))
     out.le("Hess_QR_ggivens:R upper triangular", below, 64 * m * U_ * hn + 1e-300 * (hn == 0))
     out.le("Hess_QR_ggivens:W R = H", ref.fro(ref.qmm(Wq, Rq) - H), 64 * m * U_ * hn + 1e-300 * (hn == 0))
-    out.nontrivial = k >= 2 and case["sub"] in ("some_zero", "tiny", "all_zero")
+    out.nontrivial = k >= 2 and case["sub"] in ("some_zero", "tiny", "all_zero", "zero_diagonal")
     out.sample = {"k": k, "sub": case["sub"]}
     return out
 
